@@ -13,6 +13,7 @@ import (
 	"os"
 	"os/exec"
 	"path/filepath"
+	"runtime/debug"
 	"sort"
 	"strconv"
 	"strings"
@@ -78,6 +79,7 @@ const verifC20NS = "http://v/"
 type verifC20Hook struct {
 	mu sync.Mutex
 	fn func() // runs once when Badger's backup stream has sent its data
+	lastErr string
 }
 
 type verifC20Hub struct {
@@ -93,16 +95,19 @@ var verifC20CronOnce sync.Once
 var verifC20CronMu sync.Mutex
 
 func verifC20Open(dir, bdir string, rsync bool) (h *verifC20Hub, err error) {
+	hk := &verifC20Hook{}
 	defer func() {
 		if r := recover(); r != nil {
-			err = fmt.Errorf("panic: %v", r)
+			err = fmt.Errorf("panic: %v; last error logged: %s; stack: %s", r, hk.lastErr, string(debug.Stack()))
 		}
 	}()
 	verifC20CronOnce.Do(func() { jobrunner.Start() })
 	// a logger that writes nowhere but lets the driver act on one Badger log line (the forced schedule of op c)
-	hk := &verifC20Hook{}
 	core := zapcore.NewCore(zapcore.NewJSONEncoder(zap.NewProductionEncoderConfig()), zapcore.AddSync(io.Discard), zapcore.InfoLevel)
 	logger := zap.New(core, zap.Hooks(func(e zapcore.Entry) error {
+		if e.Level >= zapcore.ErrorLevel {
+			hk.lastErr = e.Message
+		}
 		if strings.Contains(e.Message, "DB.Backup Sent data of size") {
 			hk.mu.Lock()
 			fn := hk.fn
@@ -297,6 +302,11 @@ func verifC20DirState(dir string) string {
 
 var verifC20RsyncOnce sync.Once
 
+// Cases that fork child processes (rsync mode) run alone: between fork and exec a child shares the open file
+// descriptions of every store of the process, including Badger's flock'ed LOCK files, and a restart in another
+// worker at that moment fails with "Cannot acquire directory lock".
+var verifC20ExecMu sync.RWMutex
+
 // a stand-in `rsync` first on PATH: same contract as `rsync -avz --delete SRC DEST` for a directory SRC (DEST/<base of
 // SRC> becomes a copy of SRC), but cheap on Badger's sparse files; exits 24 once when <parent of DEST>/rsync.fail exists
 func verifC20RsyncStandIn(scratch string) {
@@ -376,6 +386,13 @@ func firstDiff(a, b string) string {
 
 // VerifC20Run executes one history on a fresh store under dir.
 func VerifC20Run(c VerifC20Case, dir string) (obs VerifC20Obs) {
+	if c.Rsync {
+		verifC20ExecMu.Lock()
+		defer verifC20ExecMu.Unlock()
+	} else {
+		verifC20ExecMu.RLock()
+		defer verifC20ExecMu.RUnlock()
+	}
 	_ = os.RemoveAll(dir)
 	src := filepath.Join(dir, "src")
 	bdir := filepath.Join(dir, "bak")
